@@ -107,6 +107,15 @@ def prepare(tier, seed):
         res.update(fut.result())
     with open(_fresh_path(), "w") as f:
         json.dump({"values": res, "strict": strict}, f)
+    # reference files of scratch copies that no longer exist (validation runs against patched trees) are pruned after a few hours
+    d = os.path.dirname(_fresh_path())
+    for fn in os.listdir(d):
+        p = os.path.join(d, fn)
+        try:
+            if fn.startswith("fresh-") and p != _fresh_path() and time.time() - os.path.getmtime(p) > 6 * 3600:
+                os.remove(p)
+        except OSError:
+            pass
 
 
 _FRESH = {}
